@@ -354,6 +354,16 @@ about that way.
   triaged as above before anything else was built on it.
 * `vp check` (fresh copy, setup + every quick command) was run after each batch
   of new checks.
+* At the end every kept seeded change was applied once more to the FINAL tree
+  (`tools/recheck_seeded.sh`: scratch worktree, build, the named check at the
+  quick tier, seed 1, signatures compared with those of the unchanged tree):
+  114 of 126 are reported at that one seed. Of the other 12, five patches no
+  longer apply because a later `fix:` commit rewrote their lines; four have
+  lost their effect (their own demonstrations pass with the patch applied)
+  because a later repair removed the mechanism they relied on - one of them is
+  still reported by C04 for what is left of it; three are drawn too rarely for
+  seed 1 of the quick tier and are reported at other seeds and by the thorough
+  tier. Each record says which.
 * Evidence files record, per run: evaluations, distinct non-trivial cases,
   event counters (probes judged per kind, black-box runs, driver divergences,
   skipped cases), step maxima, samples of the generated inputs, the rule in
